@@ -155,14 +155,35 @@ def run_ops(case):
         rec["ctor"] = {"err": type(e).__name__}
         return rec
     rec["ctor"] = observe(g)
-    fork_at = case.get("fork_at"); forked = None; nreal = 0
+    fork_at = case.get("fork_at"); forked = None; nreal = 0; resumed = False
     for oi, op in enumerate(case["ops"]):
         if case.get("resume_at") is not None and not op.get("probe") and nreal == case["resume_at"] and forked is None \
-                and not g.is_complete and not g.turn.value.endswith("from-deck"):
+                and not resumed and not g.is_complete and not g.turn.value.endswith("from-deck"):
+            resumed = True
             # the game is stored and restored: a new object built through the constructor from the current fields (Spec:
             # `DealH`, any observable turn, the public card map as it stands); play goes on with the restored object
             try:
-                h = type(g)(deck=list(g.deck), discard=list(g.discard), p1_hand=list(g.p1_hand), p2_hand=list(g.p2_hand),
+                hp1, hp2 = list(g.p1_hand), list(g.p2_hand)
+                if case.get("resume_order"):
+                    # ... with the hands written in another order than the one they were held in (sorted, as displayed,
+                    # reversed): which cards a hand holds is state, the order in which a store wrote them is not
+                    def reorder(hd):
+                        m = case["resume_order"]
+                        if m == "sorted":
+                            return sorted(hd)
+                        if m == "reversed":
+                            return hd[::-1]
+                        if m == "display":
+                            try:
+                                return list(type(g).sort_hand(list(hd))) if hasattr(type(g), "sort_hand") else sorted(hd, key=lambda c: (RV[c[0]], c[1]))
+                            except Exception:
+                                return sorted(hd, key=lambda c: (RV[c[0]], c[1]))
+                        return hd[1:] + hd[:1]
+                    hp1, hp2 = reorder(hp1), reorder(hp2)
+                    if sorted(hp1) != sorted(g.p1_hand) or sorted(hp2) != sorted(g.p2_hand):
+                        hp1, hp2 = sorted(g.p1_hand), sorted(g.p2_hand)
+                    rec["reorder"] = {"oi": oi, "p1": list(hp1), "p2": list(hp2)}
+                h = type(g)(deck=list(g.deck), discard=list(g.discard), p1_hand=hp1, p2_hand=hp2,
                             turn=g.turn, first_turn=g.first_turn, public_hud=dict(g.public_hud), last_draw=g.last_draw,
                             last_draw_from_discard=g.last_draw_from_discard, turns=g.turns, max_turns=g.max_turns)
                 h.shuffles = g.shuffles          # (a counter the subclasses' constructors do not take)
@@ -179,6 +200,7 @@ def run_ops(case):
                     forked = (oi, None)
                 else:
                     forked = (oi, copy.deepcopy(g))     # a deep copy of the live game, continued after the original (see below)
+        if not op.get("probe"):
             nreal += 1
         tgt = g
         if op.get("probe"):
@@ -211,10 +233,15 @@ def run_ops(case):
     return rec
 
 
-def request(case):
+def request(case, io=None):
+    ops = case["ops"]
+    ro = (io or {}).get("reorder") if isinstance(io, dict) else None
+    if ro:
+        # the model's hands are put in the same order as the restored object's (a silent driver operation)
+        ops = list(ops[:ro["oi"]]) + [{"k": "reorder", "p1": ro["p1"], "p2": ro["p2"]}] + list(ops[ro["oi"]:])
     r = {"op": "gin", "variant": case["variant"], "max_turns": case.get("max_turns"), "deck": case["deck"],
          "discard": case["discard"], "p1": case["p1"], "p2": case["p2"], "turn": case["turn"],
-         "shuffle": case.get("shuffle", [0, 0]), "ops": case["ops"]}
+         "shuffle": case.get("shuffle", [0, 0]), "ops": ops}
     if case.get("hud0") == "empty":
         r["hud0"] = []          # the game starts from an explicitly empty public card map (model: newGameWith … (some []))
     return r
@@ -372,6 +399,56 @@ def dense_cards(rng, k, exclude=()):
     if len(p) < k:
         p = pool
     return rng.sample(p, k)
+
+
+def ricky_made_hand(rng, k=None):
+    """a 7- or 8-card gin ricky hand BUILT from melds (random samples almost never hold them): a four-card meld plus a
+    disjoint three-card meld (gin), or the same with one card of a meld replaced / a card of the other meld's suit or rank
+    added, runs and sets in every mix (run+run in two suits or one, set+run crossing, set+set), in a random card order"""
+    k = k or rng.choice([7, 8])
+
+    def run(n, avoid=()):
+        for _ in range(40):
+            s_ = rng.choice(SU); lo = rng.randrange(1, 15 - n + 1)
+            cs = [R[v] + s_ for v in range(lo, lo + n)]
+            if len(set(cs)) == n and not (set(cs) & set(avoid)):
+                return cs
+        return None
+
+    def kind_set(n, avoid=()):
+        for _ in range(40):
+            r = rng.choice(RANKS); cs = [r + s_ for s_ in rng.sample(SU, n)]
+            if not (set(cs) & set(avoid)):
+                return cs
+        return None
+    for _ in range(60):
+        m4 = (run if rng.random() < 0.6 else kind_set)(4)
+        if m4 is None:
+            continue
+        m3 = (run if rng.random() < 0.6 else kind_set)(3, m4)
+        if m3 is None:
+            continue
+        hand = m4 + m3
+        mode = rng.randrange(5)
+        pool = [c for c in CARDS if c not in hand]
+        if mode == 1:       # one card short of gin: a meld card replaced by a neighbour / stranger
+            i = rng.randrange(len(hand)); hand[i] = rng.choice(pool); pool = [c for c in CARDS if c not in hand]
+        elif mode == 2:     # the four-card meld cut to three: two three-card melds and a loose card
+            hand.remove(rng.choice([m4[0], m4[-1]])); hand.append(rng.choice(pool)); pool = [c for c in CARDS if c not in hand]
+        if k == 8:
+            near = [c for c in pool if c[0] in {x[0] for x in hand} or c[1] in {x[1] for x in hand}]
+            hand.append(rng.choice(near if near and rng.random() < 0.7 else pool))
+        if len(set(hand)) != k:
+            continue
+        order = rng.randrange(4)
+        if order == 0:
+            rng.shuffle(hand)
+        elif order == 1:
+            hand = hand[::-1]
+        elif order == 2:
+            hand = m3 + [c for c in hand if c not in m3]
+        return hand
+    return dense_cards(rng, k)
 
 
 def gen_game(rng):
